@@ -377,6 +377,14 @@ def rule_X2(ctx, R):
                 if False not in outs and len(outs) != n:
                     ok = False
                     _viol(res, "X2", f, "early-success", "%s (n=%d): returns after %d of %d members" % (label, n, len(outs), n))
+                v = p.value
+                tv = v[1] if v and v[0] == "const" else (p.facts.get(v[1]) if v and v[0] == "op" else None)
+                if False not in outs and len(outs) == n and tv is not True and not (n == 0 and tv is None):
+                    ok = False
+                    _viol(res, "X2", f, "refuses-when-free", "%s (n=%d): every member was acquired but the attempt reports %r" % (label, n, tv))
+                if False in outs and tv is not False:
+                    ok = False
+                    _viol(res, "X2", f, "succeeds-on-refusal", "%s (n=%d): a member refused but the attempt reports %r" % (label, n, tv))
         if ok:
             res.ok("%s n=%d" % (label, n))
     res.need(16, "collection-level tries x sizes")
